@@ -183,6 +183,10 @@ private theorem floor_ceil_range {a b s : Int} (hs : s ≠ 0) :
     simpa [d] using this
   · exact floor_ceil_div (X := b - a) (S := s) h
 
+/-- sympy's floor count never exceeds the step count -/
+theorem floorCount_le_stepCount {a b s : Int} (hs : s ≠ 0) : floorCount a b s ≤ stepCount a b s := by
+  rcases floor_ceil_range (a := a) (b := b) hs with h | h <;> omega
+
 /-- PF-09, exactly: the index used by `final_values` is the last index of a non-empty range iff the step divides
 `stop - start` or the range has a single element -/
 theorem finalIndex_eq_last_iff {a b s : Int} (hs : s ≠ 0) (hn : 0 < rangeLen a b s) :
